@@ -45,7 +45,7 @@ SPELL = {
     "H": ["http", "HTTP", "hTtP"], "Hs": ["https", "HTTPS", "HttpS"],
     "l": ["localhost", "LOCALHOST", "LocalHost"], "i": ["127.0.0.1"],
     "a": [A_HOST, A_HOST.upper(), "App.Example.Com"],
-    "e": ["evil.com", "attacker.example", "EVIL.COM"], "x": ["x", "zz", "wat"], "P": ["vgi"], "8": ["8443"], "6": ["::1"],
+    "d": ["default-origin.invalid"], "e": ["evil.com", "attacker.example", "EVIL.COM"], "x": ["x", "zz", "wat"], "P": ["vgi"], "8": ["8443"], "6": ["::1"],
 }
 
 
@@ -78,6 +78,8 @@ def klass(role: str, loc) -> str:
             return "rt-ipv6-literal"
         if "@" in loc:
             return "rt-userinfo"
+        if "d" in loc:
+            return "rt-default-origin-target"
         if "a" in loc and "8" in loc and ":" in loc[3:]:
             return "rt-allowlisted-host-other-port"
         if any(t in loc for t in ("l", "i", "a")):
@@ -213,7 +215,7 @@ def _run(ctx: Ctx) -> None:
              "TailLen": 2 if quick else 3, "PrefixSchemes": S(["H", "Hs"]), "PrefixSlashes": S(["/", "B"]), "LeadLen": 2 if quick else 3, "HostLen": 2 if quick else 3, "BaseScheme": "H"}
     sanity = ["KindTotal", "WhitespaceInvisible", "BackslashIsSlash", "FragmentIrrelevant", "PathAbsoluteStays",
               "EscapeIsNoDelimiter"]
-    fams = [f + "(0)" for f in ("RtFlat", "RtTails", "RtNeigh", "RtLead", "RtHosts", "RtAuth", "RtV6", "OrigFlat", "OrigTails", "OrigNeigh", "OrigLead")]
+    fams = [f + "(0)" for f in ("RtFlat", "RtTails", "RtNeigh", "RtLead", "RtHosts", "RtAuth", "RtV6", "RtTargets", "OrigFlat", "OrigTails", "OrigNeigh", "OrigLead")]
     for base in (("H",) if quick else ("H", "Hs")):
         enumerate_families(ctx, "data", "Url", [f for f in fams if not ((quick or base == "Hs") and ("Neigh" in f or "RtAuth" in f))],
                            constants={**small, "BaseScheme": base, **({"TailLen": 2} if base == "Hs" else {})}, invariants=sanity,
@@ -235,8 +237,10 @@ def _run(ctx: Ctx) -> None:
                 "full login+callback) executions; cookie cases = (mutation incl. byte position, age, state, flow)")
     ctx.assume("base URL of the navigation is the service's own http(s) URL (special scheme); BaseScheme=http for the "
                "enumeration, both http and https for the model-sanity runs",
-               "the allowlisted origin is https://app.example.com ('noport') or https://app.example.com:8443 ('port'); "
-               "end-to-end legs use make_wsgi_app's built-in allowlist entry",
+               "allowlist configurations: None (built-in default origin), empty (loopback only), https://app.example.com, the same "
+               "with :8443, custom + default, a look-alike name the operator owns, an http origin, and two sloppy spellings "
+               "(trailing slash, upper case) that are read generously; every configuration is driven through a hand-wired "
+               "gate + _OAuthPkceMiddleware + _OAuthCallbackResource app because make_wsgi_app exposes no such parameter",
                "loopback = localhost / 127.0.0.1 on any port and scheme; *.localhost, trailing-dot names, numeric and "
                "IPv6 hosts are 'uncertain' and never flagged",
                "request paths always start with '/' (WSGI PATH_INFO), so original-URL cases do too",
@@ -245,7 +249,15 @@ def _run(ctx: Ctx) -> None:
                "encoding of the same bytes is not tampering); a cookie exactly max-age old may go either way")
 
     # ------------------------------------------------------------ 3. validators on every case
-    allow = {"noport": frozenset({f"https://{A_HOST}"}), "port": frozenset({f"https://{A_HOST}:8443"})}
+    d_origin = sorted(pk._DEFAULT_ALLOWED_RETURN_ORIGINS)[0]
+    d_host = urlsplit(d_origin).hostname or "default.invalid"
+    SPELL["d"] = [d_host, d_host.upper()]
+    # allowed_return_origins per configuration (None = not configured: the library's built-in default list)
+    allow_cfg = {"default": None, "empty": frozenset(), "noport": frozenset({f"https://{A_HOST}"}),
+                 "port": frozenset({f"https://{A_HOST}:8443"}), "both": frozenset({f"https://{A_HOST}", d_origin}),
+                 "lookalike": frozenset({f"https://{A_HOST}.evil.com"}), "http_a": frozenset({f"http://{A_HOST}"}),
+                 "slash": frozenset({f"https://{A_HOST}/"}), "upper": frozenset({f"HTTPS://{A_HOST.upper()}"})}
+    allow = {k: (pk._DEFAULT_ALLOWED_RETURN_ORIGINS if v is None else v) for k, v in allow_cfg.items()}
     prefix_of = {"root": "", "vgi": "/vgi"}
     fallback_tok = {"root": ["/"], "vgi": ["/", "P"]}
     obs: list[dict] = []
@@ -422,6 +434,74 @@ def _run(ctx: Ctx) -> None:
                 elif loc == (pfx or "/"):
                     obs.append({"case": c, "obs": {"via": "callback", "accepted": True, "loc": fallback_tok[c["cfg"]]}, "_u": w,
                                 "_kind": cj["exp"]["kind"], "_loc": loc})
+                else:
+                    unjudged["n"] += 1
+        ctx.extra["e2e_locations_not_abstractable"] = unjudged["n"]
+
+        # -------------------------------------------------------- 4b. every allowlist CONFIGURATION, through real middleware
+        # make_wsgi_app never passes allowed_return_origins, so the middleware and the callback are wired by hand, once per
+        # configuration, exactly as the factory orders them (authentication gate first, PKCE middleware second)
+        import falcon
+
+        class _Gate:
+            def process_request(self, req, resp):
+                if req.path.startswith("/_oauth/"):
+                    return
+                tok = req.cookies.get(pk._AUTH_COOKIE_NAME) or (req.get_header("Authorization") or "").removeprefix("Bearer ")
+                if tok != world.token:
+                    raise falcon.HTTPUnauthorized(description="missing or invalid credential")
+
+        class _Landing:
+            def on_get(self, req, resp):
+                resp.text = "ok"
+
+        def wire(allowed):
+            key = pk._derive_session_key(b"k" * 32)
+            disc = lambda: ("https://idp.test/authorize", "https://idp.test/token")  # noqa: E731
+            kw = {} if allowed is None else {"allowed_return_origins": allowed}
+            mw = pk._OAuthPkceMiddleware(session_key=key, oidc_discovery=disc, client_id="client-1", prefix="", secure_cookie=False,
+                                         redirect_uri="http://svc.test:8000/_oauth/callback", **kw)
+            app = falcon.App(middleware=[_Gate(), mw])
+            app.add_route("/_oauth/callback", pk._OAuthCallbackResource(
+                session_key=key, oidc_discovery=disc, client_id="client-1", client_secret="client-secret-9f", use_id_token=False,
+                prefix="", secure_cookie=False, redirect_uri="http://svc.test:8000/_oauth/callback"))
+            app.add_route("/", _Landing())
+            return falcon.testing.TestClient(app)
+
+        cfg_clients = {k: [wire(v)] for k, v in allow_cfg.items()}
+        cfg_clients["default"].append(clients["root"])           # ... and the factory-built app, which is the "default" configuration
+        targets = enumerate_families(ctx, "data", "Url", ["RtTargets(0)"], constants=consts, name="Url:config-targets")
+        for cj in targets:
+            c = cj["case"]
+            toks = c["s"]
+            u = spell(toks, 0)
+            sep = "#" if "#" not in u else "&"
+            suffix = ["#", "x"] if "#" not in u else ["x"]
+            for client in cfg_clients[c["cfg"]]:
+                r = get(client, "/", "_vgi_return_to=" + quote(u, safe=""), {**html, "Cookie": f"{pk._AUTH_COOKIE_NAME}={world.token}"})
+                ctx.case(["rt", c["cfg"], u, "fastpath", id(client)])
+                if not isinstance(r, Exception):
+                    loc = r.headers.get("location") if r.status_code == 302 else None
+                    if loc is None:
+                        obs.append({"case": c, "obs": {"via": "fastpath", "accepted": False, "loc": []}, "_u": u, "_kind": cj["exp"]["kind"]})
+                    elif loc.startswith(u + sep + "token="):
+                        obs.append({"case": c, "obs": {"via": "fastpath", "accepted": True, "loc": toks + suffix}, "_u": u,
+                                    "_kind": cj["exp"]["kind"], "_loc": loc})
+                    else:
+                        unjudged["n"] += 1
+                sess = login(client, "/", "_vgi_return_to=" + quote(u, safe=""))
+                ctx.case(["rt", c["cfg"], u, "callback", id(client)])
+                if sess is None:
+                    continue
+                r = callback(client, "", sess[0], sess[1])
+                if isinstance(r, Exception) or r.status_code != 302:
+                    continue
+                loc = r.headers.get("location", "")
+                if loc.startswith(u + sep + "token="):
+                    obs.append({"case": c, "obs": {"via": "callback", "accepted": True, "loc": toks + suffix}, "_u": u,
+                                "_kind": cj["exp"]["kind"], "_loc": loc})
+                elif loc.startswith("/?_vgi_return_to="):
+                    obs.append({"case": c, "obs": {"via": "callback", "accepted": False, "loc": []}, "_u": u, "_kind": cj["exp"]["kind"]})
                 else:
                     unjudged["n"] += 1
         ctx.extra["e2e_locations_not_abstractable"] = unjudged["n"]
